@@ -165,6 +165,15 @@ def run(rep, tier, seed):
     ecfg = nttcheck.ext_configs('quick', seed)
     if tier == 'quick':
         ecfg = [c for i, c in enumerate(ecfg) if c[2] <= 16 and i % 4 == 0]
+    # threshold-directed shapes (glv/thresholds.py) are kept in full, whatever the thinning above
+    from .. import thresholds
+    ths_n = thresholds.new_thresholds('ntt')
+    xn = [c for c in thresholds.ntt_extra(ths_n, 'quick')[0] if c[1] <= 64]
+    xe = [c for c in thresholds.ext_extra(ths_n, 'quick')[0] if c[2] <= 64]
+    ncfg = ncfg + [c for c in xn if c not in ncfg]
+    ecfg = ecfg + [c for c in xe if c not in ecfg]
+    if ths_n:
+        rep.note('threshold-directed shapes for new constants %s in the transform code: %d + %d configurations added' % (ths_n, len(xn), len(xe)))
     work = [(k, cf[i::nproc]) for k, cf in (('ntt', ncfg), ('intt', ncfg), ('ext', ecfg)) for i in range(nproc) if cf[i::nproc]]
     with mp.Pool(nproc) as pool:
         res = pool.map(_ntt_worker, work)
@@ -192,6 +201,12 @@ def run(rep, tier, seed):
             for b in ([3, 8] if isb else [None]):
                 for nt in ((0, 3) if tier == 'quick' else (0, 1, 3, 7)):
                     jobs[cfg].append((variant, rows, cols, dim, b, nt))
+    ths_p = thresholds.new_thresholds('poseidon')
+    for variant, isb, only in c08.BUILDERS[:6]:
+        cfg = only or 'avx2'
+        for rows, cols, dim, b in thresholds.merkle_extra(ths_p, 'quick')[0]:
+            if (b is not None) == bool(isb) and rows <= 64:
+                jobs[cfg].append((variant, rows, cols, dim, b, 3))
     work = [(cfg, js[i::nproc]) for cfg, js in jobs.items() for i in range(nproc) if js[i::nproc]]
     with mp.Pool(nproc) as pool:
         res = pool.map(_merkle_worker, work)
